@@ -119,3 +119,10 @@ def put_gen2(key, val):
 
 def all_gen2_keys():
     return ["bin:" + r for r in binaries()] + ["ttx:" + r for r in ttx_files()]
+
+
+def compute_gen2_cached(key):
+    k = ("gen2", key)
+    if k not in _cache:
+        _cache[k] = compute_gen2(key)
+    return _cache[k]
